@@ -461,6 +461,8 @@ def well_formed(cmds):
             need_who.add(t[1])
         if k in ("new", "cnew") and len(t) > 2:
             kinds[t[1]] = t[2]
+            if stall and t[2] == "null" and t[1] != "zz":
+                return False          # (a null pipe cannot answer either: it throws requests to its probe)
         if k == "sub":
             kinds[t[1]] = "sub"
         if stall:
@@ -1207,8 +1209,13 @@ def gen_random(rng, info, quick):
     outof = {}        # name -> current output (as commanded)
     npipes = 1 + rng.below(3)
     rank = 0
+    chosen = [rng.choice(types) for _ in range(npipes)]
+    if any(t in STALL_TYPES for t in chosen):
+        # (upipe_null throws the requests it is given to its probe, which nobody answers: like a sink in mode
+        # throw / refuse it can never answer a pipe that keeps itself alive while it waits)
+        chosen = [("idem" if t == "null" else t) for t in chosen]
     for i in range(npipes):
-        t = rng.choice(types)
+        t = chosen[i]
         n = "p%d" % i
         how = "cnew" if (t in PUMP_TYPES or rng.chance(2, 3)) else "new"
         cmds += ["%s %s %s" % (how, n, t), "who %s" % n]
